@@ -94,9 +94,10 @@ func (c *verifC04) contentRules() {
 		verifnd.Assert(!c.stale[h], "list.content.stale")
 		// a replica too far behind in download to be made semi-sync (and therefore kept out of semi-sync)
 		if c.dataLag[h] {
-			if !c.w.fleet.Servers[h].SSSlave {
-				verifnd.Fact("datalag_listed", "yes")
-			}
+			// (discriminating fact for the known finding: the ack count is computed without the
+			// data-lagging members, the published list counts them — whether or not semi-sync
+			// happens to be on already on such a member)
+			verifnd.Fact("datalag_listed", "yes")
 			verifnd.Assert(c.w.fleet.Servers[h].SSSlave, "list.content.datalag")
 		}
 	}
